@@ -14,13 +14,16 @@
                         skip_newlines is on (which `(`, `[`, call arguments and blob braces turn on);
      C14_ws_token       lexer: whatever follows a token text on which all live patterns die (white space
                         does, for every finite token text checked below) leaves that token unchanged.
+     C14_nl_in_brackets two token lists of the expression fragment (no fn/pu/if/case) that differ only by comments
+                        anywhere and by newlines inside ( ) [ ] { } at any depth get the same result from
+                        `expression` (same tree, or both rejected) -- a simulation through every reachable step;
    What is NOT proved and stays a visible Prop (never assumed): C14_loop_do_unconditional,
-   C14_nl_in_brackets_parser, C14_ws_insert_whole_input.  The trailing-expression = ret sugar is a statement
+   C14_nl_in_brackets_statement_level, C14_ws_insert_whole_input.  The trailing-expression = ret sugar is a statement
    about emitted code, not about parsing; it is covered by the byte-level oracle of tools/props/c14.py. *)
 From Coq Require Import String List NArith Bool Arith.
 From Sylt Require Import Lex.Regex Lex.Logos Lex.LayoutProofs Gen.GenTokens
   Syntax.Ast Syntax.Tok Parse.PrecTable Parse.Parser Parse.ParserProofs Parse.OpTree Parse.ExprRoundTrip
-  Parse.Sugar Parse.Layout Gen.GenPrec.
+  Parse.Sugar Parse.Layout Parse.LayoutSim Gen.GenPrec.
 Import ListNotations.
 
 Definition gen_ptab : ptab := interp GenPrec.table.
@@ -102,6 +105,25 @@ Theorem C14_layout_enter_bracket : forall c c', erase true (post c) = erase true
   layout_eq (fst (push_nl true c)) (fst (push_nl true c')).
 Proof. exact layout_push_true. Qed.
 
+(* newlines inside brackets and comments anywhere: the expression parser cannot tell the difference *)
+Theorem C14_bracket_sane : bracket_sane gen_ptab.
+Proof.
+  intros t [H|H]; destruct t as [| | | | | |k|]; try discriminate; destruct k; try discriminate;
+    vm_compute; split; reflexivity.
+Qed.
+
+Theorem C14_nl_in_brackets : forall ts ts' f,
+  insignificant_diff ts ts' -> frag ts -> frag ts' ->
+  (match ts with TComment :: _ => False | _ => True end) ->
+  (match ts' with TComment :: _ => False | _ => True end) ->
+  match parse_expression gen_ptab f ts, parse_expression gen_ptab f ts' with
+  | Ok (e, c), Ok (e', c') => e = e' /\ rel false [] c c'
+  | Err, Err => True
+  | Fuel, Fuel => True
+  | _, _ => False
+  end.
+Proof. exact (nl_in_brackets gen_ptab C14_bracket_sane). Qed.
+
 (* ---- layout, lexer side ---- *)
 Theorem C14_ws_token : forall a w w' rest rest', a <> [] ->
   dies_after gen_table a w = true -> dies_after gen_table a w' = true ->
@@ -111,7 +133,7 @@ Proof. exact (ws_insert_token gen_table). Qed.
 (* ---- stated, not proved ---- *)
 Definition C14_loop_do_unconditional : Prop := loop_do_statement gen_ptab.
 Definition C14_statement_pre_insensitive : Prop := statement_pre_insensitive_statement gen_ptab.
-Definition C14_nl_in_brackets_parser : Prop := nl_in_brackets_statement gen_ptab.
+Definition C14_nl_in_brackets_statement_level : Prop := nl_in_brackets_statement_level gen_ptab.
 Definition C14_ws_insert_whole_input : Prop := ws_insert_statement gen_table.
 
 (* ---- non-vacuity ---- *)
@@ -167,6 +189,36 @@ Example C14_example_nl_in_brackets :
      [TIdent (nm "f"); TK KLeftParen; TInt 1; TK KComma; TInt 2; TK KRightParen])).
 Proof. vm_compute. reflexivity. Qed.
 
+(* the hypotheses of C14_nl_in_brackets are satisfiable: f(t[0], [1, 2], A { x: 1 }) with line breaks and comments *)
+Definition nlb_clean : list tok :=
+  [TIdent (nm "f"); TK KLeftParen; TIdent (nm "t"); TK KLeftBracket; TInt 0; TK KRightBracket; TK KComma;
+   TK KLeftBracket; TInt 1; TK KComma; TInt 2; TK KRightBracket; TK KComma;
+   TIdent (nm "A"); TK KLeftBrace; TIdent (nm "x"); TK KColon; TInt 1; TK KRightBrace; TK KRightParen; TK KNewline].
+Definition nlb_dirty : list tok :=
+  [TIdent (nm "f"); TComment; TK KLeftParen; TK KNewline; TIdent (nm "t"); TK KLeftBracket; TK KNewline; TInt 0;
+   TK KNewline; TK KRightBracket; TK KNewline; TK KComma; TComment; TK KNewline;
+   TK KLeftBracket; TInt 1; TK KNewline; TK KComma; TInt 2; TK KRightBracket; TK KComma; TK KNewline;
+   TIdent (nm "A"); TK KLeftBrace; TK KNewline; TIdent (nm "x"); TK KColon; TK KNewline; TInt 1; TK KNewline;
+   TK KRightBrace; TK KNewline; TK KRightParen; TComment; TK KNewline].
+
+Example C14_example_nlb_hyps : insignificant_diff nlb_clean nlb_dirty /\ frag nlb_clean /\ frag nlb_dirty.
+Proof.
+  split; [|split; repeat constructor].
+  unfold insignificant_diff, nlb_clean, nlb_dirty.
+  repeat first [ apply E_nil
+               | apply E_tok; [reflexivity|reflexivity|reflexivity|]
+               | apply E_open; [reflexivity|]
+               | apply E_close; [reflexivity|]
+               | apply E_close0; [reflexivity|]
+               | apply E_trr; [reflexivity|] ].
+Qed.
+
+Example C14_example_nlb_result :
+  option_map fst (observe (parse_expression gen_ptab 60 nlb_clean))
+  = option_map fst (observe (parse_expression gen_ptab 60 nlb_dirty))
+  /\ option_map fst (observe (parse_expression gen_ptab 60 nlb_clean)) <> None.
+Proof. vm_compute. split; [reflexivity|discriminate]. Qed.
+
 (* white space after identifier, number, operator and keyword texts: the live patterns die *)
 Definition codes (s : string) : list N := ascii_name s.
 Example C14_example_ws_dies :
@@ -192,4 +244,6 @@ Print Assumptions C14_layout_token.
 Print Assumptions C14_layout_skip.
 Print Assumptions C14_layout_lookahead.
 Print Assumptions C14_layout_enter_bracket.
+Print Assumptions C14_bracket_sane.
+Print Assumptions C14_nl_in_brackets.
 Print Assumptions C14_ws_token.
